@@ -212,6 +212,11 @@ class ObjectsMixin:
             py_raise('AttributeError', name)
         if isinstance(obj, SClass):
             return self.objmodel.sclass_getattr(obj, name)
+        from .loops import NS
+        if isinstance(obj, NS):
+            if name in obj.d:
+                return obj.d[name]
+            py_raise('AttributeError', name)
         r = self.ext_getattr(obj, name)
         if r is not NOTIMPL:
             return r
@@ -389,6 +394,7 @@ class ObjectsMixin:
         if self.call_depth > 200:
             raise Unsupported('recursion depth')
         self.func_stack.append(f.qualname)
+        self.fn_stack.append(f)
         try:
             self.exec_block(node.body, env)
         except ReturnSignal as r:
@@ -396,6 +402,7 @@ class ObjectsMixin:
         finally:
             self.call_depth -= 1
             self.func_stack.pop()
+            self.fn_stack.pop()
         return None
 
     def call_dunder(self, obj, name, args, missing_ok=False):
